@@ -257,6 +257,9 @@ func parseNumber(s string) (any, bool) {
 	if err == nil {
 		return z, true
 	}
+	if !isDecimal(s) {
+		return nil, false // e.g., "NaN", "Inf", "0x1p-2", "1e5", "1_0"
+	}
 	v, err := strconv.ParseFloat(s, 64)
 	if err == nil {
 		return v, true
@@ -286,4 +289,24 @@ func parseQuoted64(s string) ([]byte, bool, error) {
 		return nil, false, errors.New("missing bytes quote")
 	}
 	return nil, false, nil
+}
+
+// isDecimal reports whether s consists of an optional sign followed by decimal
+// digits with at most one decimal point, and at least one digit.
+func isDecimal(s string) bool {
+	if s != "" && (s[0] == '+' || s[0] == '-') {
+		s = s[1:]
+	}
+	var digits, dots int
+	for i := 0; i < len(s); i++ {
+		switch {
+		case s[i] >= '0' && s[i] <= '9':
+			digits++
+		case s[i] == '.':
+			dots++
+		default:
+			return false
+		}
+	}
+	return digits > 0 && dots <= 1
 }
